@@ -2,9 +2,14 @@ import os, sys
 sys.path.insert(0, os.path.dirname(__file__))
 from _common import *
 ACC = 'acme_common/src/crypto/openssl_certificate.rs'
+CRT = 'acmed/src/certificate.rs'
+def uws(n):
+    return {'put_cert': 5, 'X509::from_pem': n + 1, r'GeneralName as .*to_vec': n + 1, 'simd_bitmask': 17, 'swap_nonoverlapping': 8, 'memcmp': 3,
+            r'drop_glue::<\[': max(n, 2) + 1, 'subject_alt_names': n + 1, 'has_missing_identifiers': 2}
+UWS = uws(0)
 SPEC = {
     'id': 'C06',
-    'outside': "OpenSSL's ASN.1 time parsing and ASN1_TIME_diff itself (modelled by its contract); the main loop's actual sleeping (C07)",
+    'outside': "has_missing_identifiers (HashSet<String> comparison of configured identifiers and SANs: solver out of memory even for one name); OpenSSL's ASN.1 time parsing and ASN1_TIME_diff itself (modelled by its contract); the main loop's actual sleeping (C07)",
     'assumptions': ['openssl model: Asn1Time::diff returns the symbolic (days, secs) pair; contract |secs| < 86400, same sign as days'],
     'units': [
         {
@@ -13,6 +18,23 @@ SPEC = {
             'harnesses': [
                 {'name': 'c06_expires_in_exact', 'file': ACC, 'timeout': 900, 'bounds': 'days any i32, |secs| < 86400 same sign',
                  'asserts': 'no panic/overflow; expires_in == max(0, 86400*days + secs) computed in 128-bit'},
+            ],
+        },
+        {
+            'name': 'schedule', 'shims': ['openssl', 'rand'], 'edits': [FILES_EXIST_CUT, GET_CERT_CUT],
+            'assumptions': ['storage::certificate_files_exists / get_certificate cut to a file model (present/absent; certificate = model encoding parsed by the openssl model)',
+                            'rand model: gen_range(a..b) returns ANY Duration of [a, b) and panics on an empty range like the real crate',
+                            'alloc::fmt::format stubbed (log text)', 'std::hash::RandomState::new stubbed'],
+            'harness_files': {CRT: 'harness/certificate.rs'},
+            'harnesses': [
+                {'name': 'c06_witness', 'file': CRT, 'kind': 'witness', 'timeout': 1500, 'unwindset': UWS, 'bounds': 'any (days, secs), files present or not', 'asserts': 'immediate and deferred renewal both reachable'},
+                {'name': 'c06_renew_in_window_32bit', 'file': CRT, 'timeout': 2400, 'unwindset': UWS, 'bounds': 'any (days, secs); renew_delay and random_early_renew any u32 seconds', 'asserts': 'same as c06_renew_in_window'},
+                {'name': 'c06_renew_in_window', 'file': CRT, 'tiers': ['thorough'], 'timeout': 7200, 'unwindset': UWS,
+                 'bounds': 'any (days i32, secs) per ASN1_TIME_diff contract, any renew_delay and random_early_renew (u64 seconds)',
+                 'asserts': 'max(0,E-D) - random_early_renew < renew_in <= max(0,E-D); equality when random_early_renew is 0; no panic/overflow'},
+                {'name': 'c06_schedule_files_and_time', 'file': CRT, 'timeout': 1800, 'unwindset': UWS,
+                 'bounds': 'files present or not, certificate readable or not, any (days, secs), renew_delay any u32 seconds, no identifier configured',
+                 'asserts': 'ZERO iff a file is missing; Err iff present but unreadable; else exactly notAfter - renew_delay'},
             ],
         },
     ],
